@@ -247,6 +247,9 @@ func sequentialBFS(r *ev.Run, depth int) (states, transitions, traces int64) {
 		{"dict", writeRAC(mk(10), func(w *rac.Writer) { w.DChunkSize = 5; w.ResourcesData = [][]byte{mk(8)} }), mk(10)},
 		{"two-level", writeRAC(mk(300), func(w *rac.Writer) { w.DChunkSize = 1 }), mk(300)},
 		{"empty", writeRAC(nil, func(w *rac.Writer) {}), nil},
+		// more than 255*255 chunks: a three-level index (the bias bookkeeping of the descent
+		// only matters from the second level down, under the root's second child)
+		{"three-level", writeRAC(mk(65300), func(w *rac.Writer) { w.DChunkSize = 1 }), mk(65300)},
 	}
 	var mu sync.Mutex
 	type unit struct {
@@ -264,6 +267,10 @@ func sequentialBFS(r *ev.Run, depth int) (states, transitions, traces int64) {
 		size := int64(len(u.f.payload))
 		chunk := int64(3)
 		pts := []int64{-1, 0, 1, chunk, chunk + 1, size - 1, size, size + 1}
+		if u.f.name == "three-level" {
+			pts = []int64{-1, 0, 255*255 - 1, 255 * 255, 255*255 + 1, 255*255 + 255, size - 1, size}
+			chunk = 255 * 255
+		}
 		var alpha []Op
 		for _, p := range pts {
 			alpha = append(alpha, Op{Kind: "seek", Off: p, Whence: io.SeekStart})
@@ -304,6 +311,9 @@ func sequentialBFS(r *ev.Run, depth int) (states, transitions, traces int64) {
 			frontier = next
 			if len(u.f.payload) > 100 && d >= depth-1 {
 				break // the large two-level file gets one level less
+			}
+			if u.f.name == "three-level" && d >= 2 {
+				break
 			}
 		}
 		mu.Lock()
@@ -421,6 +431,11 @@ func main() {
 		"reread-after-eof":   {rd(100), sk(0), rd(100), cl},
 		"close-only":         {cl},
 		"seek-back-mid-file": {rd(2), sk(1), rd(2), sk(0), rd(1), cl},
+		// a failing call while goroutines are at work, then Close: both sides report the
+		// error (the comparison ends there) but Close must still leave no goroutine behind
+		"read-badseek-close":      {rd(1), sk(-1), cl},
+		"read-badseekrange-close": {rd(1), {Kind: "seekrange", Off: 2, Hi: 1}, cl},
+		"read-badseek-closenw":    {rd(1), sk(-1), {Kind: "closenw"}},
 	}
 	var names []string
 	for k := range hist {
@@ -571,7 +586,7 @@ func main() {
 		States:             sStates + totStates,
 		Transitions:        sTrans + totPoints,
 		TracesValidated:    sTraces + totExec,
-		Rule: fmt.Sprintf("sequential: BFS over all call sequences up to depth %d from a %d-symbol alphabet of Seek/SeekRange/Read/Close on 7 files x Concurrency{0,1}, every history co-simulated with a bytes.Reader+limit model; "+
+		Rule: fmt.Sprintf("sequential: BFS over all call sequences up to depth %d from a %d-symbol alphabet of Seek/SeekRange/Read/Close on 8 files (1..300 chunks, zero tail, dictionary, empty; a 65300-chunk three-level index to depth 2) x Concurrency{0,1}, every history co-simulated with a bytes.Reader+limit model; "+
 			"concurrent: for every (history, file, Concurrency{2,3}) every schedule of the rewritten conc_reader.go within the stated preemption/deviation bounds (quick 1/1, thorough 2/2 and unbounded on 3 chunks), happens-before state pruning; "+
 			"states = alive sequential histories + distinct scheduler state keys; transitions = calls + scheduling points", depth, 41),
 		Exhaustive: allExhaustive,
